@@ -67,6 +67,7 @@ template <typename F>
 static Outcome run(F&& f) {
   Outcome o;
   try {
+    vf::poison_errno();  // correct code never depends on the errno it finds on entry
     o.got = f();
   } catch (const std::exception& e) {
     o.threw = true;
